@@ -11,7 +11,8 @@ Every argument has a type of its own, so the type seen in a parameter tells
 which argument was bound to it:
   positional #k -> POS[k] (int, str, float, bytes, complex, then P5(), P6(), ...)
   star item #k  -> S<k>;  keyword x -> K_x;  map entry x -> Q_x;  default of x -> D_x
-Unknown keyword names are z, y.
+Unknown keyword names are z, y.  Keyword names are drawn from parameter names, the names
+of the callee's own *va / **kw parameters (`va=K_va()`, `kw=K_kw()`) and unknown names.
 Nothing here imports pytype.
 """
 from __future__ import annotations
@@ -48,6 +49,16 @@ def param_names(sig):
 
 def named_params(sig):
   return po_names(sig) + pk_names(sig) + ko_names(sig)
+
+
+def star_names(sig):
+  """Names of the *args / **kwargs parameters; a keyword argument may be spelled like them."""
+  return (["va"] if sig["va"] else []) + (["kw"] if sig["kw"] else [])
+
+
+def keyword_name_pool(sig, unknown=1):
+  """Names a call may use as keywords: parameters, the star parameters' own names, unknown names."""
+  return named_params(sig) + star_names(sig) + UNKNOWN[:unknown]
 
 
 def has_default(sig, name):
@@ -192,15 +203,20 @@ def enumerate_signatures(max_per_kind):
   return out
 
 
-def enumerate_calls(sig, max_kw=3, extra_pos=1, unknown=1):
+def enumerate_calls(sig, max_kw=3, extra_pos=1, unknown=1, max_kw_with_star=2):
   """All call shapes: 0..(#positional params + extra_pos) positional arguments (one more
-  when *va exists) x keyword-name subsets of size <= max_kw over parameter names + unknown."""
+  when *va exists) x keyword-name subsets of size <= max_kw over parameter names + the
+  callee's own star-parameter names (va, kw) + unknown.  Subsets that use a star-parameter
+  name are limited to size <= max_kw_with_star (budget)."""
   npos_max = len(sig["po"]) + len(sig["pk"]) + extra_pos + (1 if sig["va"] else 0)
-  names = named_params(sig) + UNKNOWN[:unknown]
+  names = keyword_name_pool(sig, unknown)
+  stars = set(star_names(sig))
   out = []
   for n in range(npos_max + 1):
     for k in range(0, min(max_kw, len(names)) + 1):
       for sub in itertools.combinations(names, k):
+        if k > max_kw_with_star and stars.intersection(sub):
+          continue
         out.append({"npos": n, "kws": list(sub), "star": None, "dstar": None})
   return out
 
@@ -249,11 +265,17 @@ def random_call(rng, sig, max_pos=5, max_kw=3):
   npp = len(sig["po"]) + len(sig["pk"])
   n = rng.choice([npp, npp, max(0, npp - 1), npp + 1, rng.randint(0, max_pos), len(sig["po"])])
   n = min(n, max_pos + 2)
-  names = named_params(sig) + UNKNOWN
+  names = keyword_name_pool(sig, len(UNKNOWN))
   k = rng.randint(0, min(max_kw, len(names)))
   # bias towards the names that are still unfilled after n positionals
   rest = [x for x in named_params(sig)[n:]] if n <= npp else ko_names(sig)
   sub = set()
   for _ in range(k):
-    sub.add(rng.choice(rest) if rest and rng.random() < 0.7 else rng.choice(names))
+    r = rng.random()
+    if star_names(sig) and r < 0.15:
+      sub.add(rng.choice(star_names(sig)))
+    elif rest and r < 0.7:
+      sub.add(rng.choice(rest))
+    else:
+      sub.add(rng.choice(names))
   return {"npos": n, "kws": sorted(sub), "star": None, "dstar": None}
